@@ -167,9 +167,9 @@ theorem parseTagsLoop_shift (text : Bytes) (base : Pos) (parts : List Bytes) (s 
     amountSecondSign (listEnv num cls) sg (shiftSt d st) = (id (amountSecondSign (listEnv num cls) sg st).1, shiftSt d (amountSecondSign (listEnv num cls) sg st).2) := by
   fun_cases amountSecondSign (listEnv num cls) sg st <;> (unfold amountSecondSign; (try simp +zetaDelta only [] at *) <;> (first | grind [Shift.date, Shift.rng, Shift.commodity, Shift.amount, Shift.cost, Shift.assertion, Shift.posting, Shift.tx, Shift.account, Shift.incl, Shift.dir, Shift.comment, Shift.item, Shift.dirResult, toRange, emptyCommodity, DirResult.ofDir] | (simp_all [Shift.date, Shift.rng, Shift.commodity, Shift.amount, Shift.cost, Shift.assertion, Shift.posting, Shift.tx, Shift.account, Shift.incl, Shift.dir, Shift.comment, Shift.item, Shift.dirResult, toRange, emptyCommodity, DirResult.ofDir]; done) | (simp_all <;> grind [Shift.date, Shift.rng, Shift.commodity, Shift.amount, Shift.cost, Shift.assertion, Shift.posting, Shift.tx, Shift.account, Shift.incl, Shift.dir, Shift.comment, Shift.item, Shift.dirResult, toRange, emptyCommodity, DirResult.ofDir])))
 
-@[simp, grind =] theorem amountRightCommodity_shift (c : Commodity) (st : PState (List Token)) :
-    amountRightCommodity (listEnv num cls) (d.commodity c) (shiftSt d st) = (d.commodity (amountRightCommodity (listEnv num cls) c st).1, shiftSt d (amountRightCommodity (listEnv num cls) c st).2) := by
-  fun_cases amountRightCommodity (listEnv num cls) c st <;> (unfold amountRightCommodity; (try simp +zetaDelta only [] at *) <;> (first | grind [Shift.date, Shift.rng, Shift.commodity, Shift.amount, Shift.cost, Shift.assertion, Shift.posting, Shift.tx, Shift.account, Shift.incl, Shift.dir, Shift.comment, Shift.item, Shift.dirResult, toRange, emptyCommodity, DirResult.ofDir] | (simp_all [Shift.date, Shift.rng, Shift.commodity, Shift.amount, Shift.cost, Shift.assertion, Shift.posting, Shift.tx, Shift.account, Shift.incl, Shift.dir, Shift.comment, Shift.item, Shift.dirResult, toRange, emptyCommodity, DirResult.ofDir]; done) | (simp_all <;> grind [Shift.date, Shift.rng, Shift.commodity, Shift.amount, Shift.cost, Shift.assertion, Shift.posting, Shift.tx, Shift.account, Shift.incl, Shift.dir, Shift.comment, Shift.item, Shift.dirResult, toRange, emptyCommodity, DirResult.ofDir])))
+@[simp, grind =] theorem amountRightCommodity_shift (c : Commodity) (stop : Pos) (st : PState (List Token)) :
+    amountRightCommodity (listEnv num cls) (d.commodity c) (d.pos stop) (shiftSt d st) = ((d.commodity (amountRightCommodity (listEnv num cls) c stop st).1.1, d.pos (amountRightCommodity (listEnv num cls) c stop st).1.2), shiftSt d (amountRightCommodity (listEnv num cls) c stop st).2) := by
+  fun_cases amountRightCommodity (listEnv num cls) c stop st <;> (unfold amountRightCommodity; (try simp +zetaDelta only [] at *) <;> (first | grind [Shift.date, Shift.rng, Shift.commodity, Shift.amount, Shift.cost, Shift.assertion, Shift.posting, Shift.tx, Shift.account, Shift.incl, Shift.dir, Shift.comment, Shift.item, Shift.dirResult, toRange, emptyCommodity, DirResult.ofDir] | (simp_all [Shift.date, Shift.rng, Shift.commodity, Shift.amount, Shift.cost, Shift.assertion, Shift.posting, Shift.tx, Shift.account, Shift.incl, Shift.dir, Shift.comment, Shift.item, Shift.dirResult, toRange, emptyCommodity, DirResult.ofDir]; done) | (simp_all <;> grind [Shift.date, Shift.rng, Shift.commodity, Shift.amount, Shift.cost, Shift.assertion, Shift.posting, Shift.tx, Shift.account, Shift.incl, Shift.dir, Shift.comment, Shift.item, Shift.dirResult, toRange, emptyCommodity, DirResult.ofDir])))
 
 @[simp, grind =] theorem amountNumber_shift (sp : Pos) (sg : Bytes) (c : Commodity) (sb : Bool) (st : PState (List Token)) :
     amountNumber (listEnv num cls) (d.pos sp) sg (d.commodity c) sb (shiftSt d st) = (Option.map d.amount (amountNumber (listEnv num cls) sp sg c sb st).1, shiftSt d (amountNumber (listEnv num cls) sp sg c sb st).2) := by
